@@ -56,6 +56,10 @@ KINDS = {
 class NodeDomain(ObjectDomain):
     """One symbolic node of a suite tree; recursive calls of the utilities are answered symbolically."""
 
+    # The recursive utilities are generators over a symbolic tree: a recursive call is answered by the induction
+    # hypothesis (what it yields for a child), which needs the whole body of a generator run at its call.
+    lazy_generators = False
+
     def __init__(self, classes, kind, children=(X, Y), stubs=None, **kw):
         suite, plain, has_id, has_filter, has_sort = KINDS[kind]
         lacks = set(kw.pop("lacks", ()))
